@@ -35,10 +35,17 @@ type TPacket struct {
 	iface     string
 	vm        *bpf.VM
 	prog      []bpf.RawInstruction
-	rx        *vs.Chan[[]byte]
+	rx        *vs.Chan[rxFrame]
 	closed    *vs.Chan[struct{}]
 	isClosed  bool
 	Delivered int
+}
+
+// rxFrame: what the ring holds for one frame: the captured bytes (cut at the filter's snap length) and
+// the length the frame had on the wire.
+type rxFrame struct {
+	data    []byte
+	wirelen int
 }
 
 type Take struct {
@@ -86,7 +93,7 @@ func NewWorld() *World {
 }
 
 func NewTPacket(opts ...interface{}) (*TPacket, error) {
-	t := &TPacket{rx: vs.MakeCap[[]byte](1 << 22), closed: vs.MakeCap[struct{}](0)}
+	t := &TPacket{rx: vs.MakeCap[rxFrame](1 << 22), closed: vs.MakeCap[struct{}](0)}
 	for _, o := range opts {
 		if i, ok := o.(OptInterface); ok {
 			t.iface = string(i)
@@ -136,9 +143,10 @@ func (t *TPacket) ZeroCopyReadPacketData() ([]byte, gopacket.CaptureInfo, error)
 	r, c := t.rx.RecvCase(), t.closed.RecvCase()
 	switch vs.Select(false, c, r) {
 	case 1:
-		d := r.V
+		d := r.V.data
 		W.Reads = append(W.Reads, Read{T: vs.VNow(), Thread: vs.CurThread(), Sock: t.id, Data: append([]byte{}, d...)})
-		return d, gopacket.CaptureInfo{Timestamp: vs.Now(), CaptureLength: len(d), Length: len(d)}, nil
+		// like afpacket: Length is the length on the wire, CaptureLength what the filter let through
+		return d, gopacket.CaptureInfo{Timestamp: vs.Now(), CaptureLength: len(d), Length: r.V.wirelen}, nil
 	default:
 		return nil, gopacket.CaptureInfo{}, errors.New("read: use of closed file")
 	}
@@ -205,7 +213,7 @@ func Inject(frame []byte) int {
 		}
 		d := make([]byte, keep)
 		copy(d, frame)
-		if s.rx.Push(d) {
+		if s.rx.Push(rxFrame{d, len(frame)}) {
 			s.Delivered++
 			n++
 		}
